@@ -321,6 +321,8 @@ def run_threaded(res: Result, seed: int) -> None:
     problems: List[str] = []
     injected: List[Tuple[str, int]] = []          # appended (under the lock) before the datagram is handed to the instance
     withdrawn_meanwhile: List[str] = []
+    absent_in_add: List[str] = []
+    processed: List[Tuple[str, int]] = []         # (alias, ttl) of every datagram the loop thread has begun to process
     set_flavour(False)
     T = TYPES[0]
 
@@ -360,15 +362,20 @@ def run_threaded(res: Result, seed: int) -> None:
                 if kind == "A":
                     # lookups from inside add_service (browser thread) must see the record
                     if not any(isinstance(r, d.DNSPointer) and r.alias.lower() == name.lower() for r in zc.cache.entries_with_name(T)):
-                        # the callback runs on the browser thread, later than the datagram was processed on the loop thread: a
-                        # goodbye injected after the announcement may legitimately have removed the record again by now
-                        mine = [ttl for (n, ttl) in injected if n.lower() == name.lower()]
-                        last_pos = max((i for i, ttl in enumerate(mine) if ttl > 0), default=-1)
-                        if any(ttl == 0 for ttl in mine[last_pos + 1:]):
-                            withdrawn_meanwhile.append(name)
-                        else:
-                            problems.append("add_service(%s): PTR not in the cache" % name)
+                        absent_in_add.append(name)
                 state[name.lower()] = kind
+            if absent_in_add and absent_in_add[-1] == name and kind == "A":
+                # The callback runs on the browser thread, later than the datagram was processed on the loop thread: a goodbye
+                # the loop thread has begun to process since may legitimately have removed the record again.  Decided from the
+                # log of datagrams the loop thread has begun to process: no goodbye about this name among them => the record of
+                # the triggering datagram is owed; a goodbye among them => not judged (counted).
+                absent_in_add.pop()
+                with lock:
+                    mine = [ttl for (n, ttl) in processed if n.lower() == name.lower()]
+                    if any(ttl == 0 for ttl in mine):
+                        withdrawn_meanwhile.append(name)
+                    else:
+                        problems.append("add_service(%s): PTR not in the cache and no goodbye for it has reached the instance (datagrams begun: %r)" % (name, mine))
 
         def add_service(self, zc: Any, t: str, n: str) -> None:
             self._cb("A", zc, n)
@@ -382,6 +389,15 @@ def run_threaded(res: Result, seed: int) -> None:
     try:
         with simnet.RealTimeRig() as rig:
             zc = Zeroconf()
+
+            def _done(rec: Dict[str, Any]) -> None:
+                m, _ = wire.try_parse(rec["data"], strict=False)
+                if m is not None and m.is_response:
+                    with lock:
+                        for r in m.answers:
+                            if r.type == 12:
+                                processed.append((R.ident_of_wire(r)[2][0], r.ttl))
+            rig.net.on_deliver = _done
             browser = ServiceBrowser(zc, T, listener=L())
             time.sleep(0.15)
             steps = []
